@@ -42,7 +42,7 @@ TEMPLATES = {
 
 
 def goal_of(v):
-    args = [terms.from_tla(a) for a in v["args"]]
+    args = [glue.from_packed(a) for a in v["args"]]
     goal = TEMPLATES[v["op"]].format(*[terms.text(a) for a in args])
     # only the plain vertex / edge list arguments are handed to sort/2 by the library as they are
     shape = "plain"
@@ -59,7 +59,7 @@ def query_of(v):
 
 def expected_of(v):
     if v["k"] == "oneof":
-        return ("oneof", terms.from_tla(v["v"]))
+        return ("oneof", glue.from_packed(v["v"]))
     return glue.expected_of(v)
 
 
@@ -87,11 +87,14 @@ def signature(v, exp, got):
 def run(tier):
     rep = Report(PROP, tier, META["level"])
     rep.rule = ("TLC enumerates every digraph on at most 3 vertices {10, a, f(x)} (567 graphs) x operation, with every vertex "
-                "argument, every vertex list of length <= 2, every edge list of length <= 2 (<= 1 on three vertices) and every "
-                "pair of graphs on at most 2 vertices; thorough: every digraph on at most 4 vertices for transpose, closure, "
-                "complement, top_sort, reachable, pairs (<=3, <=2 vertices) and a seeded sample of 4000 digraphs on 5 vertices. "
+                "argument, every vertex list of length <= 2, every edge list of length <= 2 on graphs of at most 2 vertices and every "
+                "pair of graphs on at most 2 vertices; thorough: also every one-edge list on every 3-vertex graph, every digraph on "
+                "at most 4 vertices for transpose, closure, complement, top_sort, reachable, pairs (<=3, <=2 vertices) and a seeded "
+                "sample of 4000 digraphs on 5 vertices. "
                 "distinct = distinct (operation, |V|, |E|, cyclic?, size of the closure, argument class: new/absent vertices, "
                 "edges hit, shared vertices)")
+    import gc
+    gc.disable()
     phases = {}
     t0 = time.time()
     res, vecs = common.generate("MC_C53", "MC_C53_%s.cfg" % tier, workers=8, timeout=3000,
